@@ -214,7 +214,42 @@ def _global_continue_to_nesting(root: str) -> None:
                     fh.write(_ast.unparse(tree) + "\n")
 
 
+_STAGE_ATTRS = {"solved_col", "solved_by_col", "issue_col", "reaction_col", "carbon_balance_col", "unbalance_col", "mcs_data_col", "confidence_col", "input_reaction_col", "solved_method_col", "solved_by_method", "mcs_col"}
+
+
+def _global_rename_stage_attrs(root: str) -> None:
+    """consistent rename of the stage objects' column attributes (`self.solved_col` -> `self.solved_col_name`, every
+    access in the package): behaviour-preserving, and none of the rules may depend on these spellings"""
+    import ast as _ast
+
+    for dp, _dn, fn in os.walk(os.path.join(root, "synrbl")):
+        for f in fn:
+            if not f.endswith(".py"):
+                continue
+            path = os.path.join(dp, f)
+            with open(path, encoding="utf-8") as fh:
+                src = fh.read()
+            try:
+                tree = _ast.parse(src)
+            except SyntaxError:
+                continue
+            edits = [(n.end_lineno, n.end_col_offset, n.attr) for n in _ast.walk(tree) if isinstance(n, _ast.Attribute) and n.attr in _STAGE_ATTRS]
+            if not edits:
+                continue
+            lines = src.split("\n")
+            for el, ec, attr in sorted(edits, reverse=True):
+                line = lines[el - 1]
+                if not line.isascii():
+                    ec = len(line.encode("utf-8")[:ec].decode("utf-8"))
+                start = ec - len(attr)
+                if line[start:ec] == attr:
+                    lines[el - 1] = line[:start] + attr + "_name" + line[ec:]
+            with open(path, "w", encoding="utf-8") as fh:
+                fh.write("\n".join(lines))
+
+
 GLOBAL_VARIANTS = {
+    "global-benign-rename-stage-attributes": _global_rename_stage_attrs,
     "global-benign-reformat": _global_reformat,
     "global-benign-shuffle-methods-noop": _global_shuffle,
     "global-benign-rename-locals": _global_rename_locals,
